@@ -900,7 +900,23 @@ def reach(topo, who, kind, pol):
         r |= add
 
 
-def run_exitprop(topo, who, kind, pol, *, grace=0.45, rng=None):
+def reach_up(topo, who, kind, pol):
+    """The part of `reach` that does not depend on a PUB->SUB link being established: exit messages travelling UPSTREAM go
+    through the PUSH pipe, which exists from connect() and loses nothing; a message published DOWNSTREAM by a filter that
+    ends before its subscribers have joined is lost (slow joiner) - the pipeline is not yet connected in that direction."""
+    edges = TOPOS[topo]
+    ups = {f: {u for u, d in edges if d == f} for f in NAMES}
+    r = {who}
+    while True:
+        add = {g for f in r if has(pol[f][0], kind) for g in ups[f] if has(pol[g][1], kind)} - r
+        if not add:
+            return r
+        r |= add
+
+
+def run_exitprop(topo, who, kind, pol, *, grace=0.45, rng=None, at='proc'):
+    """at='proc': `who` ends in its k-th process() after the pipeline is connected; at='setup': `who` ends in setup(), before
+    it ever requested a frame (its neighbours have never seen a request from it)."""
     edges = TOPOS[topo]
     specs = []
     for f in NAMES:
@@ -910,14 +926,18 @@ def run_exitprop(topo, who, kind, pol, *, grace=0.45, rng=None):
         if not ups:
             plan['period_ms'] = 20
         if f == who:
-            plan['proc'] = ('armed', 'raise' if kind == 'error' else 'exit')
+            if at == 'setup':
+                plan['setup'] = 'raise' if kind == 'error' else 'exit'
+            else:
+                plan['proc'] = ('armed', 'raise' if kind == 'error' else 'exit')
         specs.append(FSpec(f, sources=srcs, out=any(u == f for u, _ in edges), prop=pol[f][0], obey=pol[f][1], plan=plan))
     rig = Rig(specs)
     try:
-        connected = rig.drive(lambda: all(rig.obs[f].nproc() >= 3 for f in NAMES), max_time=6.0, max_steps=40000, rng=rng)
-        if not connected:
-            return {'connected': False}
-        rig.armed[who] = True
+        if at == 'proc':
+            connected = rig.drive(lambda: all(rig.obs[f].nproc() >= 3 for f in NAMES), max_time=6.0, max_steps=40000, rng=rng)
+            if not connected:
+                return {'connected': False}
+            rig.armed[who] = True
         rig.drive(lambda: rig.done(who), max_time=3.0, max_steps=40000, rng=rng)
         while True:
             n = sum(rig.done(f) for f in NAMES)
@@ -930,7 +950,7 @@ def run_exitprop(topo, who, kind, pol, *, grace=0.45, rng=None):
         rig.close()
 
 
-def judge_exitprop(topo, who, kind, pol, o, strict=True):
+def judge_exitprop(topo, who, kind, pol, o, strict=True, at='proc'):
     """strict (one policy pair for all filters - the property's quantifier): the terminated set must equal the fixpoint.
     not strict (per-filter pairs, an extension): a filter that should have terminated but did not is returned separately
     (see ExitProp.tla, deviation "oob_read_in_matching_phase"), everything else is judged as usual."""
@@ -939,11 +959,19 @@ def judge_exitprop(topo, who, kind, pol, o, strict=True):
     want = reach(topo, who, kind, pol)
     got = {f for f in NAMES if o['filters'][f]['result'] != 'running'}
     pols = {f: '/'.join(pol[f]) for f in NAMES}
-    if got != want and (strict or got - want):
+    if at == 'setup':
+        # `who` ended before the pipeline was connected: what must terminate is what the loss-free upstream direction reaches,
+        # what may terminate is the full fixpoint
+        must = reach_up(topo, who, kind, pol)
+        if not (must <= got <= want):
+            v.append(('C08_Propagation', f'{topo}: {who} ends ({kind}) in setup() with prop/obey {pols}: terminated {sorted(got)}, '
+                      f'the policies prescribe at least {sorted(must)} and at most {sorted(want)}',
+                      dict(base, kind='propagation', extra=bool(got - want), missing=bool(must - got))))
+    elif got != want and (strict or got - want):
         extra, missing = sorted(got - want), sorted(want - got)
         v.append(('C08_Propagation', f'{topo}: {who} ends ({kind}) with prop/obey {pols}: terminated {sorted(got)}, the policies '
                   f'prescribe {sorted(want)}', dict(base, kind='propagation', extra=bool(extra), missing=bool(missing))))
-    if strict and all(has(pol[f][0], kind) and has(pol[f][1], kind) for f in NAMES) and got != set(NAMES):
+    if at != 'setup' and strict and all(has(pol[f][0], kind) and has(pol[f][1], kind) for f in NAMES) and got != set(NAMES):
         v.append(('C08_WholePipeline', f'{topo}: matching policies {pols} but {sorted(set(NAMES) - got)} keep running after '
                   f'{who} ended ({kind})', dict(base, kind='whole_pipeline')))
     for f in sorted(got):
